@@ -7,6 +7,9 @@ wt, seed, dest = sys.argv[1], sys.argv[2], sys.argv[3]
 cmd = sys.argv[4:]
 env = dict(os.environ, CARGO_TARGET_DIR=os.path.join(wt, "target"), CARGO_NET_OFFLINE="true")
 def run(c, **kw):
+    if c and c[0] == "cargo":
+        # private network namespace: the server tests bind fixed ports and collide with other scratch worktrees
+        c = ["unshare", "-n", "sh", "-c", "ip link set lo up; exec \"$@\"", "sh"] + list(c)
     r = subprocess.run(c, cwd=wt, env=env, stdout=subprocess.PIPE, stderr=subprocess.STDOUT, text=True, **kw)
     return r.returncode, r.stdout
 run(["git", "checkout", "--", "."])
